@@ -155,7 +155,29 @@ def cases(ctx: Ctx):
     # ---- wrong AES key
     for msg, m in g.valid:
         yield g.sealed_case('wrong-aes-key', msg[1], aes_key=OTHER_AES_KEY, via_loop=True)
-    # ---- known / unknown urn x right / wrong device key
+    # ---- AES secrets outside ASCII (as many bytes as the cipher takes, not as many as they have characters): a secret
+    # that shares its first characters -- and so its first bytes -- with the right one is a WRONG secret
+    for rig_key, other in (('\u043a\u043b\u044e\u0447' * 4, '\u043a\u043b\u044e\u0447' * 2 + '-edge-02'),
+                           ('\u043a\u043b\u044e\u0447' * 2 + '-edge-02', '\u043a\u043b\u044e\u0447' * 4),
+                           ('\u00e9' * 16, '\u00e9' * 8 + 'abcdefgh' * 2), ('\u00e9' * 8 + 'abcdefgh' * 2, '\u00e9' * 16)):
+        from bobocep.dist.crypto.aes import BoboDistributedCryptoAES
+        try:
+            BoboDistributedCryptoAES(rig_key), BoboDistributedCryptoAES(other)
+        except Exception as e:   # noqa  (a secret the cipher refuses is no case)
+            if not isinstance(e, ValueError) and type(e).__name__ != 'BoboDistributedCryptoError':
+                raise
+            continue
+        for msg, m in g.valid[:3]:
+            # the message under the OTHER secret, then the same plaintext under the right one (which must be served)
+            wrong = seal(msg[1], rng_nonce(rng), other)
+            good = seal(msg[1], rng_nonce(rng), rig_key)
+            script, clock = g.one_chunk(wrong, 2048)
+            bc = bad_conn(script, clock, '6.6.6.6', pt=msg[1], sealed_ok=False, label='secret with the same leading bytes')
+            c = g.case('wrong-aes-key-same-leading-bytes', [bc, valid_conn(rng, msg, good, 2048)], recv_bytes=2048,
+                       extra_sealed=[[good.hex(), msg[1]]], extra_json=[msg[5]], nofollow=True)
+            c['rig_key'] = rig_key
+            yield c
+
     js_ok = payload_json(1, 0)
     # (names and keys outside ASCII too: a key that differs from the right one only in characters some normalisation drops or
     # folds -- an accent, an invisible separator, a full-width twin -- is a wrong key)
